@@ -1004,6 +1004,14 @@ func (s *Server) handleDecline(req *dhcpv4.DHCPv4) {
 	}
 	s.leasesMu.Unlock()
 
+	// Remove from circuit-ID secondary index
+	if exists && lease != nil && len(lease.CircuitID) > 0 {
+		cidKey := hex.EncodeToString(lease.CircuitID)
+		s.leasesByCircuitIDMu.Lock()
+		delete(s.leasesByCircuitID, cidKey)
+		s.leasesByCircuitIDMu.Unlock()
+	}
+
 	if exists && lease != nil {
 		if pool := s.poolMgr.GetPool(lease.PoolID); pool != nil {
 			pool.MarkUnavailable(declinedIP)
